@@ -143,8 +143,9 @@ func runC12(c *core.Ctx) {
 				c.Violate("C12|alias|"+alias, "GetConfig(%s) = %v, %v; want band %s", alias, b, err, name)
 			}
 		}
-		if _, err := band.GetConfig("NOPE", false, lorawan.DwellTimeNoLimit); err == nil {
-			c.Violate("C12|unknown-band-accepted", "GetConfig(NOPE) succeeded")
+		// a name that is no band is outside the property; it must only not panic
+		if p, msg := core.Guard(func() { _, _ = band.GetConfig("NOPE", false, lorawan.DwellTimeNoLimit) }); p {
+			c.Violate("C12|unknown-band-panic", "GetConfig(NOPE): %s", msg)
 		}
 	}
 }
